@@ -486,6 +486,9 @@ func TestVerifReplay(t *testing.T) {
 		if vState.file.Sched > 0 && tries < 1000 {
 			tries = 1000 // outcome depends on the goroutine schedule: repeated natively
 		}
+		if vState.file.MapIters > 0 && tries < 300 {
+			tries = 300 // the path iterates a map: natively the order is drawn afresh on every run
+		}
 		var st, msg string
 		for try := 0; try < tries; try++ {
 			vState.pos = 0
@@ -654,7 +657,7 @@ func writeReplay(prop, tier string, v Violation) string {
 	dir := filepath.Join(verifDir, "replays")
 	os.MkdirAll(dir, 0755)
 	body := map[string]interface{}{"property": prop, "harness": v.Harness, "tier": tier, "clause": v.Clause, "kind": v.Kind,
-		"draws": v.Draws, "prefix": v.Prefix, "detail": v.Detail, "finding": v.Finding, "sched": v.Sched, "sched_points": len(v.Sched)}
+		"draws": v.Draws, "prefix": v.Prefix, "detail": v.Detail, "finding": v.Finding, "sched": v.Sched, "sched_points": len(v.Sched), "map_iterations": v.MapIters}
 	b, _ := json.MarshalIndent(body, "", " ")
 	h := sha1.Sum(b)
 	path := filepath.Join(dir, fmt.Sprintf("%s-%s-%x.json", prop, v.Harness, h[:5]))
